@@ -139,6 +139,19 @@ def chooseBuild (st : SState Pos) (mf : Nat) (p1 p2 : List Pos) : Bool :=
 
 def swapRows (l : List (Nat × Nat)) : List (Nat × Nat) := l.map (fun p => (p.2, p.1))
 
+/-- `_build_spatial_index` followed by the assignment `self.index = …`: the cached
+object when the coordinates are equal, else a new GeoIndex (which draws the next
+permutation); an empty array is scikit-learn's ValueError -/
+def buildIndex (shuf : Nat → List Pos → List Nat) (st : SState Pos) (bp : List Pos) :
+    Except Err (SState Pos × Index Pos) :=
+  match (if isCached st bp then st.index else none) with
+  | some ix => .ok (st, ix)
+  | none =>
+    if bp.isEmpty then .error .valueError
+    else match Index.build .minkowski bp (some (shuf st.built bp)) with
+      | .error e => .error e
+      | .ok ix => .ok ({ st with index := some ix, built := st.built + 1 }, ix)
+
 /-- `spatial_search`.  The object state is updated even when the call raises (returned
 in the first component).  An empty build or query array is scikit-learn's ValueError. -/
 def spatialSearch (T : TreeFn Pos α) (shuf : Nat → List Pos → List Nat) (mf : Nat)
@@ -148,15 +161,7 @@ def spatialSearch (T : TreeFn Pos α) (shuf : Nat → List Pos → List Nat) (mf
   let st1 := { st with iwp := iwp }
   let bp := if iwp then p1 else p2
   let qp := if iwp then p2 else p1
-  let built : Except Err (SState Pos × Index Pos) :=
-    match (if isCached st1 bp then st1.index else none) with
-    | some ix => .ok (st1, ix)
-    | none =>
-      if bp.isEmpty then .error .valueError
-      else match Index.build .minkowski bp (some (shuf st1.built bp)) with
-        | .error e => .error e
-        | .ok ix => .ok ({ st1 with index := some ix, built := st1.built + 1 }, ix)
-  match built with
+  match buildIndex shuf st1 bp with
   | .error e => (st1, .error e)
   | .ok (st2, ix) =>
     if qp.isEmpty then (st2, .error .valueError)
